@@ -127,6 +127,45 @@ Definition spec_iff : list (Z * string) :=
 Definition hex2 (b : Z) : bytes := [hex_digit (b / 16); hex_digit (b mod 16)].
 Definition spec_mac (data : bytes) : bytes := join [58] (map hex2 data).
 
+(* =========================================================== interface addresses *)
+(* what the property demands for one node of the kernel's interface list: the text of each address present;
+   a hardware address as all its sll_halen bytes (hex pairs joined by ':'), no entry for a node without an
+   address of a known family; broadcast only with IFF_BROADCAST, else the peer address with IFF_POINTOPOINT *)
+Definition spec_text (sa : option saddr) : option bytes :=
+  match sa with
+  | Some (SaLL []) => None
+  | Some (SaLL d) => Some (spec_mac d)
+  | Some (SaText _ t) => Some t
+  | _ => None
+  end.
+Definition spec_ifa_row (i : ifa) : option nrow :=
+  match ifa_addr i, spec_text (ifa_addr i) with
+  | Some a, Some ad =>
+    Some {| n_name := ifa_name i; n_fam := sa_family a; n_addr := ad; n_mask := spec_text (ifa_mask i);
+            n_bcast := (if Z.odd (ifa_flags i / 2) then spec_text (ifa_baddr i) else None);
+            n_ptp := (if Z.odd (ifa_flags i / 2) then None
+                      else if Z.odd (ifa_flags i / 16) then spec_text (ifa_baddr i) else None) |}
+  | _, _ => None
+  end.
+Definition spec_if_rows (l : list ifa) : list nrow := filter_some (map spec_ifa_row l).
+(* as net_if_addrs() shows them: a hardware address shorter than 6 bytes completed with zero bytes *)
+Definition spec_pad_row (r : nrow) (data : bytes) : nrow :=
+  {| n_name := n_name r; n_fam := n_fam r; n_addr := spec_mac (data ++ repeat 0 (6 - length data));
+     n_mask := n_mask r; n_bcast := n_bcast r; n_ptp := n_ptp r |}.
+
+Definition sa_ok (family : Z) (sa : option saddr) : bool :=
+  match sa with
+  | None => true
+  | Some s => (sa_family s =? family) &&
+              match s with SaLL d => wf_bytes d && (length d <=? 255)%nat | _ => true end
+  end.
+Definition wf_ifa (i : ifa) : bool :=
+  (0 <=? ifa_flags i) && utf8_valid (ifa_name i) &&
+  match ifa_addr i with
+  | None => true
+  | Some a => sa_ok (sa_family a) (Some a) && sa_ok (sa_family a) (ifa_mask i) && sa_ok (sa_family a) (ifa_baddr i)
+  end.
+
 (* =========================================================== memory safety of the model *)
 Definition in_bounds (size : nat) (ws : list cwrite) : Prop := Forall (fun w => (fst w < size)%nat) ws.
 Definition is_ub (r : cres) : bool := match r with CUB _ => true | _ => false end.
